@@ -131,4 +131,21 @@ PLANS = {
         'design_ref': 'DESIGN.md 5.1',
         'level_note': 'trusted: the wrapper that observes closure truncation (ref/pda.py step relation); the library\'s own acceptance tests are the oracle by definition of the property',
     },
+    'C18': {
+        'quick': {'rounds': 32, 'wall_cap_s': 150},
+        'thorough': {'rounds': 96, 'wall_cap_s': 1500},
+        'rule': ('cases = sessions (pristine fork each, so the step list is the whole history since interpreter start): 2-5 base NFAs (1-3 states, arbitrary names incl. '
+                 'q0,q1,.. i.e. exactly the names the hidden generators hand out later; epsilon symbol drawn from {\'\', ε, _, e}; dict and defaultdict transition maps; partial relations) '
+                 'followed by 3-9 constructions nfa_union / nfa_concatenation / nfa_repetition with the default or a private IdentifierGenerator, on bases and on results of earlier steps; '
+                 'pairs are built from disjoint bases and a step is skipped when its operands are not state-disjoint (precondition) (one evaluation = one construction call). '
+                 'Oracle: reference validator, exact language equality with reference union/concat/star of the operand snapshots taken before the call, an introduced state that is not an operand state, '
+                 'all pool objects unchanged after the call. distinct = distinct session; non-trivial = some operand is itself a result of an earlier construction.'),
+        'schedule_measure': 'distinct (session, iteration order of each base NFA\'s state set) pairs; history measure: hidden-counter values at which a construction ran and operation bigrams are in coverage.histogram',
+        'assumptions': COMMON_ASSUMPTIONS + ['narrowing: both operands of one call share the same epsilon symbol'],
+        'expected_probes': ['non_default_epsilon', 'private_generator', 'next_default_name_is_an_operand_state', 'nontrivial'],
+        'technique': 'deterministic simulation: seeded operation histories in pristine interpreters (hidden name generators and aliasing are the state under test) x schedules; reference union/concat/star oracle with exact language equality and snapshots after every step; ddmin over the step list; minimised replay files',
+        'level_text': 'seeded sampling of call histories over a pool of NFAs; every construction result is compared exactly (all word lengths) with the reference construction on pre-call snapshots, and every pool object is re-snapshotted after every step; evidence, not proof',
+        'design_ref': 'DESIGN.md 5.7',
+        'level_note': 'trusted: /verif/ref/fa.py incl. ref_union/ref_concat/ref_star (cross-checked against bounded enumeration in selftest)',
+    },
 }
